@@ -483,10 +483,17 @@ func histViolation(run uint64, fk string, tree string) *found {
 	return &found{v: sim.Violation{Property: id, Class: sim.VHistory, Op: op, Detail: detail}, run: run, prog: &p, bin: "worker"}
 }
 
+var writtenReplays = map[string]bool{}
+
 func writeReplay(f found, tree string) string {
 	dir := filepath.Join(verif, "replays")
 	os.MkdirAll(dir, 0o755)
 	path := filepath.Join(dir, fmt.Sprintf("%s-%d-%d.json", id, seed, f.run))
+	// one run may show violations with different signatures: one file each
+	for n := 2; writtenReplays[path]; n++ {
+		path = filepath.Join(dir, fmt.Sprintf("%s-%d-%d.%d.json", id, seed, f.run, n))
+	}
+	writtenReplays[path] = true
 	rf := sim.ReplayFile{Property: id, Class: f.v.Class, Op: f.v.Op, Detail: f.v.Detail, Signature: f.v.Sig(), Seed: seed, Run: f.run, TreeHash: tree, Program: f.prog}
 	if f.race != nil {
 		rf.RaceText = f.race.Text
